@@ -252,6 +252,36 @@ silent("C17", "s-type prefactor spelled pi * sqrt(pi) / (alpha * sqrt(alpha))",
        ("sub", "coulomb.py", "    prefactor = (np.pi / alpha) ** 1.5\n",
         "    prefactor = np.pi * np.sqrt(np.pi) / (alpha * sqrt_alpha)\n"))
 
+# ------------------------------------------------------------------------------------------ C01
+fire("C01", "tanh-sinh weights lose the factor pi/2", "R1.weights-are-node-map-derivative/onedgrid.TanhSinh",
+     ("sub", "onedgrid.py", "        weights *= 0.5 * np.pi * delta\n", "        weights *= delta\n"))
+fire("C01", "exp-exp weights with e^t - 1 instead of e^t + 1", "R1.weights-are-node-map-derivative/onedgrid.ExpExp",
+     ("sub", "onedgrid.py", "        weights = h * np.exp(-np.exp(-k * h)) * (np.exp(k * h) + 1)\n",
+      "        weights = h * np.exp(-np.exp(-k * h)) * (np.exp(k * h) - 1)\n"))
+fire("C01", "arcsinh-exp weights with the wrong sign under the root", "R1.weights-are-node-map-derivative/onedgrid.SingleArcSinhExp",
+     ("sub", "onedgrid.py", "        weights = h * np.exp(k * h) / np.sqrt(np.exp(2 * h * k) + 1)\n",
+      "        weights = h * np.exp(k * h) / np.sqrt(np.exp(2 * h * k) - 1)\n"))
+fire("C01", "single-tanh weights with cosh to the first power", "R1.weights-are-node-map-derivative/onedgrid.SingleTanh",
+     ("sub", "onedgrid.py", "        weights = h / np.cosh(k * h) ** 2\n", "        weights = h / np.cosh(k * h)\n"))
+fire("C01", "exp-sinh weights forget the step", "R1.weights-are-node-map-derivative/onedgrid.ExpSinh",
+     ("sub", "onedgrid.py", "        weights = points * np.pi * h * np.cosh(k * h) / 2\n",
+      "        weights = points * np.pi * np.cosh(k * h) / 2\n"))
+fire("C01", "a coefficient of the derivative of the degree-9 Trefethen map", "R2.map-derivative-pair/onedgrid._derg3",
+     ("sub", "onedgrid.py", "    return (1 / 53089) * (40320 + 20160 * x**2 + 15120 * x**4 + 12600 * x**6 + 11025 * x**8)\n",
+      "    return (1 / 53089) * (40320 + 20160 * x**2 + 15120 * x**4 + 12600 * x**6 + 11052 * x**8)\n"))
+fire("C01", "degree-9 map paired with the derivative of the degree-5 map", "R2.map-applied-with-its-derivative/onedgrid.TrefethenCC",
+     ("sub", "onedgrid.py", "            weights = _derg3(grid.points) * grid.weights\n        else:\n            raise ValueError(f\"Degree {d} should be either 1, 5, 9.\")\n\n        super().__init__(points, weights, (-1, 1))\n\n\nclass TrefethenGC2",
+      "            weights = _derg2(grid.points) * grid.weights\n        else:\n            raise ValueError(f\"Degree {d} should be either 1, 5, 9.\")\n\n        super().__init__(points, weights, (-1, 1))\n\n\nclass TrefethenGC2"))
+silent("C01", "tanh-sinh weights written with 1 - tanh^2",
+       ("sub", "onedgrid.py", "        weights = np.cosh(theta) / np.cosh(0.5 * np.pi * np.sinh(theta)) ** 2\n",
+        "        weights = np.cosh(theta) * (1 - np.tanh(0.5 * np.pi * np.sinh(theta)) ** 2)\n"))
+silent("C01", "single-exp nodes reused in the weights",
+       ("sub", "onedgrid.py", "        points = np.exp(k * h)\n        weights = h * np.exp(k * h)\n",
+        "        points = np.exp(k * h)\n        weights = h * points\n"))
+silent("C01", "arcsinh-exp weights with the root spelled as a power",
+       ("sub", "onedgrid.py", "        weights = h * np.exp(k * h) / np.sqrt(np.exp(2 * h * k) + 1)\n",
+        "        weights = h * np.exp(k * h) * (np.exp(h * k) ** 2 + 1) ** -0.5\n"))
+
 # ------------------------------------------------------------------------------------------ C03
 fire("C03", "coefficient changed in one copy of the third inverse derivative", "R1.inverse-formulas-agree",
      ("sub", "rtransform.py", "        return (3 * d2(r) ** 2 - d1(r) * d3(r)) / self._d1(r) ** 5\n",
